@@ -220,7 +220,10 @@ func ParentMain(p Prop, tier string, seed int64, po ParentOpts) int {
 	id := p.ID()
 	scratch, _ := os.MkdirTemp("", "verif-"+id+"-")
 	defer os.RemoveAll(scratch)
-	po.ExtraEnv = append(po.ExtraEnv, "VERIF_SCRATCH="+scratch)
+	po.ExtraEnv = append(po.ExtraEnv, "VERIF_SCRATCH="+scratch, "GORACE=log_path="+scratch+"/race halt_on_error=0 exitcode=0")
+	if ep, ok := p.(interface{ Env() []string }); ok {
+		po.ExtraEnv = append(po.ExtraEnv, ep.Env()...)
+	}
 	results := make([]*workerResult, n)
 	var infra []string
 	var deaths []violRec
